@@ -151,6 +151,11 @@ func (c17) Gen(rng *simrt.Rand, seed uint64, tier string) *Case {
 		perf.DataChan, perf.WindowOut = 1+rng.Intn(4), 1+rng.Intn(4)
 	} else {
 		perf.Strategy, perf.DataChan, perf.WindowOut = "drop", n+8, n+8
+		if rng.Bool(0.4) {
+			// tiny window buffers under the drop strategy (the size also bounds the window's intake
+			// queue): whole results may be dropped at the output, but every row still has to get in
+			perf.WindowOut = 1 + rng.Intn(3)
+		}
 	}
 	if twoProd {
 		perf.Strategy, perf.BlockTimeout, perf.DataChan, perf.WindowOut = "expand", 0, 1+rng.Intn(3), n+8
